@@ -716,6 +716,8 @@ class Executor:
         from . import symcoll
         if isinstance(v,Ref) and v.cls=='setlist':
           yield st1,(symcoll.EnumV(v) if e.func.id=='enumerate' else v); continue
+        if e.func.id=='enumerate' and isinstance(v,Ref) and v.cls=='dict' and isinstance(st1.heap.get((v.id,'key')),IntT):
+          yield st1,symcoll.DictIter(v,'items'); continue          # a list viewed as {index: element} (positions matter to the code)
         if _setlike(v,st1) and e.func.id=='sorted':
           arr,et=symcoll.setval(v,st1); st2=st1.fork(); yield st2,symcoll.new_setlist(st2,arr,et); continue
         raise Unsupported(f"{e.func.id}() of {v!r}")
@@ -899,6 +901,7 @@ class Executor:
     yield st,None
   def st_ImportFrom(s,n,st): yield st,None
   def st_Global(s,n,st): yield st,None
+  def st_Nonlocal(s,n,st): yield st,None      # closure variables are inputs of the contract view
   def st_Break(s,n,st): yield st,('break',)
   def st_Continue(s,n,st): yield st,('continue',)
 
@@ -1322,6 +1325,10 @@ def resolve_locs(loc,env,heap):
     for i in re.findall(r'\[(\d+)\]',m.group(2)): cur=heap[(cur.id,'items')][int(i)]
     return cur
   parts=loc.split('.'); cur=env[parts[0]]
+  if len(parts)==1:      # a parameter that is itself a collection
+    if isinstance(cur,Ref) and cur.cls in('set','setlist') and (cur.id,'arr') in heap: return {(cur.id,'arr')}
+    if isinstance(cur,Ref) and cur.cls=='dict' and (cur.id,'dom') in heap: return {(cur.id,'dom'),(cur.id,'val')}
+    return set()
   for p in parts[1:-1]: cur=step(cur,p)
   last=parts[-1]
   tgt=heap.get((cur.id,last))
@@ -1494,7 +1501,18 @@ def _bi_hex(s,f,args,kw,st):
   else: yield st,Exc('TypeError','hex()')
 
 def _bi_str(s,f,args,kw,st): yield st,S()
-def _bi_repr(s,f,args,kw,st): yield st,S()
+def _bi_repr(s,f,args,kw,st):
+  v=args[0]
+  if isinstance(v,Opq) and z3.is_expr(v.t) and str(v.t.sort())=='Obj' and getattr(getattr(s,'contract',None),'opaque_attrs',False):
+    from . import symcoll
+    yield st,Opq(z3.Function('pm_repr_of',symcoll.Obj,symcoll.Obj)(v.t),'obj'); return       # the name of the object, as an object
+  yield st,S()
+def _bi_eval(s,f,args,kw,st):
+  v=args[0]
+  if isinstance(v,Opq) and z3.is_expr(v.t) and str(v.t.sort())=='Obj' and getattr(getattr(s,'contract',None),'opaque_attrs',False):
+    from . import symcoll
+    yield st,Opq(z3.Function('pm_eval_of',symcoll.Obj,symcoll.Obj)(v.t),'obj'); return       # what the name denotes in the current (unchanging) state
+  raise Unsupported("eval()")
 
 def _bi_len(s,f,args,kw,st):
   v=args[0]
@@ -1654,6 +1672,7 @@ def _bi_id(s,f,args,kw,st):
   from . import symcoll
   st2=st.fork(); st2.pc.append(symcoll.id_axiom()); yield st2,I(symcoll.IDF(symcoll.to_obj(args[0],st)))
 BUILTIN_FNS['id']=_bi_id
+BUILTIN_FNS['eval']=_bi_eval
 def _bi_pq(s,args,kw,st):
   # queue.PriorityQueue used single-threaded: a duplicate-free collection from which get() removes some element (the minimum: any element is
   # a sound over-approximation for order-independent postconditions); put(x) carries the obligation that x is not yet queued
